@@ -38,6 +38,7 @@ type Contract struct {
 	Results  []string
 	Props    []string
 	Requires []Clause
+	Assumes  []Clause
 	Ensures  []Clause
 	EnsPanic []Clause
 	Modifies []string
@@ -242,6 +243,10 @@ func (cs *ContractSet) parseFile(path, pkg string, prefix string, trusted bool) 
 				cur.Props = append(cur.Props, strings.Fields(rest)...)
 			case "requires":
 				cur.Requires = append(cur.Requires, splitLabel(rest))
+			case "assumes":
+				// an entry assumption that is NOT checked at call sites (e.g. a fact the input syntax
+				// guarantees); every use is listed among the unchecked assumptions in the evidence
+				cur.Assumes = append(cur.Assumes, splitLabel(rest))
 			case "ensures":
 				cur.Ensures = append(cur.Ensures, splitLabel(rest))
 			case "ensures_panic":
